@@ -336,6 +336,18 @@ class Impl:
                 shape_ok = False
         except Exception:
             shape_ok = False
+        # what the model REPORTS as a reaction's objective coefficient must be what the solver holds (also for weights
+        # below the solver tolerance): forward coefficient c and reverse coefficient -c  <->  reported c
+        try:
+            objc = {tuple(c["name"]): F(c["obj"]) for c in cols}
+            for k, r in self.rx.items():
+                if r._model is M and (k, False) in objc:
+                    cf, cr = objc[(k, False)], objc.get((k, True), F(0))
+                    want = cf if cf == -cr else F(0)
+                    if F(r.objective_coefficient) != want:
+                        shape_ok = False
+        except Exception:  # noqa
+            shape_ok = False
         return {"rx": rx, "mt": mt, "vars": cols, "cons": rows, "dir": raw["direction"],
                 "depth": len(M._contexts), "shape_ok": bool(shape_ok), "res": res}
 
@@ -530,7 +542,7 @@ def gen_history(rng, length, solver="glpk", ctx_p=0.12, max_depth=3, fail_p=0.15
             if rng.random() < fail_p:
                 c = list(im.rx)
             if c:
-                o = ["SetObjCoef", rng.choice(c), rng.choice(["1", "0", "-1", "2", "1/2"])]
+                o = ["SetObjCoef", rng.choice(c), rng.choice(["1", "0", "-1", "2", "1/2", "1/33554432", "-1/33554432"])]
         elif n == "SetDir":
             o = ["SetDir", rng.choice(["max", "min"])]
         elif n == "Imul":
